@@ -1023,7 +1023,8 @@ class TransportLayerLogic:
                             self.tx_state = self.TxState.WAIT_FC
                             self._start_rx_fc_timer()
 
-                elif flow_control_frame.flow_status == PDU.FlowStatus.ContinueToSend and not self.timer_rx_fc.is_timed_out():
+                elif flow_control_frame.flow_status == PDU.FlowStatus.ContinueToSend and not self.timer_rx_fc.is_timed_out() \
+                        and self.tx_state in [self.TxState.WAIT_FC, self.TxState.TRANSMIT_CF]:
                     self.wft_counter = 0
                     self.timer_rx_fc.stop()
                     assert flow_control_frame.stmin_sec is not None
